@@ -54,6 +54,10 @@ CLAIMED = {
    text="Theorems (Qv/Props/C18.lean): on the device model every state-changing function either sets need_flush or leaves L1, L2, refcount table and refcounts unchanged (FlagOrSame for the 30 functions of the write / allocate / discard paths; the two internal exceptions allocRange and mapRun are stated with their callers' compensation); hence for every history without flush the flag is set whenever the view differs from the last flushed view (needflush_seq, needflush_since_last_flush), flush does not change the view. Tie: the model's flag equals the real flag after every operation; oracle: whenever the real flag is false the file alone, read by a fresh device, must give the flat disk - sequentially after every operation and at the quiescent points of concurrent schedules (flush overlapping writers).",
    ref="10.7", tech="Lean 4 invariant (flag-or-same) on the device model + correspondence of the flag + reopen oracle at every flag-false point, sequential and under the scheduler",
    note=COMMON_NOTE + "; the flag is sampled only while no flush is running, as the property says"),
+ "C12": dict(
+   text="Theorems (Qv/Props/C12.lean): the growth step of the model (Qv.Model.growReftable, mirror of clone_and_grow + grow_reftable + release of the old table) is characterised exactly in both success branches, fails only with `unsupported` leaving the state unchanged, never panics, covers the requested index, preserves all old entries (growReftable_covers); the new refblock and table clusters lie in the region of the new entry (growReftable_new_region), have refcount exactly 1 and exactly one reference each (growth_new_clusters); nothing is under-counted between relocation and release (growth_noUnder) and the accounting invariant Acct holds again afterwards (growth_acct, ensureRefblock_growth_acct incl. indices beyond the next entry). New refblocks: C03 theorems. Tie: histories that fill self-formatted images until the host file outgrows the refcount table, many-refblock histories, builder images with a short L1 table - every result, table, refcount and header field equals the model; every flushed file is judged exactly by the Lean checker; crash search (C04/C05 oracles) on every request of the relocation windows.",
+   ref="10.9", tech="Lean 4 theorems on the growth step of the model (exact characterisation, accounting through relocation) + correspondence on growth histories + crash search focused on the relocation windows",
+   note=COMMON_NOTE + "; the order of writes and syncs inside the relocation is searched (crash states), not proved; growth beyond the first refblock slice is refused by the code (documented limit); L1 table relocation is unreachable within the 32 MiB L1 cap. Known finding (zero+prealloc leak) shared with C03"),
  "C08": dict(
    text="Theorems (Qv/Props/C08.lean, 41): for all refcount slices and device states - free-window search returns the FIRST all-zero window or none when none exists (sound, first, complete, fuel suffices), slice allocation hands out only refcount-0 clusters, contiguous, no longer than requested, sets them to 1 and changes nothing else; free decrements exactly once, never below zero (panics instead), lowers the hint to the freed cluster; alloc-then-free round trip; the allocator loops terminate with the model's fuel under every geometry. Tie: allocator choices of the real code (host offsets, hint, every refcount) equal the model's on write/discard/rewrite cycles; single-owner and refcount>=1 oracle on the RAM view after every operation.",
    ref="5.C08", tech="Lean 4 theorems on the mirrored allocator + correspondence of every allocation decision + ownership oracle", note=COMMON_NOTE + "; concurrent allocation (disjointness under interleaving) is covered by C06's schedule exploration, not by these theorems"),
